@@ -205,7 +205,7 @@ def _gen_ops(w, tags, depth, budget, allow_fault_free=True):
                 else:
                     spec[which - 1] = w.pick(COLORS)
             ops.append(["probe", w.pick(["registered", "added", "single", "single_io", "single_out"]),
-                        spec, w.pick(["plain text", "x", "Zeile"]), w.randrange(4)])
+                        spec, w.pick(["plain text", "x", "Zeile", "1 < 2", "a <= b > c", "x <not a tag> y"]), w.randrange(4)])
         elif k == "raise":
             ops.append(["raise"])
         elif k == "try":
